@@ -20,3 +20,6 @@ pub assume_specification<T>[ Option::<T>::or ](this: Option<T>, optb: Option<T>)
 
 pub assume_specification<T>[ Option::<T>::replace ](this: &mut Option<T>, value: T) -> (r: Option<T>)
     ensures r == *old(this), *final(this) == Some(value);
+
+pub assume_specification<T: Copy>[ Option::<&T>::copied ](this: Option<&T>) -> (r: Option<T>)
+    ensures this is None ==> r is None, this is Some ==> r == Some(*this->Some_0);
